@@ -173,9 +173,39 @@ fn unwrap_more(rng: &mut Rng, out: &mut Out) {
     }
 }
 
+/// `Unwrapper::<i64>::wraps::<P32, S>()` (the real method, through the phase-word newtype of pword.rs) for several `S`,
+/// states at the rounding boundaries `k·2^S ± 2^(S-1) + {-1,0,1}`, the extremes of i64 and random states.
+fn unwrap_wraps(rng: &mut Rng, out: &mut Out) {
+    use crate::pword::P32;
+    macro_rules! one {
+        ($s:expr, $y:expr) => {{
+            let y: i64 = $y;
+            let r = catch_unwind(AssertUnwindSafe(|| Unwrapper::<i64>::verif_from_raw(y).wraps::<P32, $s>().0));
+            out.emit(&format!("wraps 32 {} {}", $s, y), r.ok().map(|v| format!("{}", v)));
+        }};
+    }
+    let y = match rng.below(5) {
+        0 => rng.i64(),
+        1 => [i64::MIN, i64::MAX, 0, -1, 1][rng.below(5) as usize].wrapping_add(rng.below(3) as i64 - 1),
+        _ => {
+            let s = [1u32, 2, 16, 31, 32][rng.below(5) as usize];
+            let k = (rng.i32() >> rng.below(31)) as i64;
+            (k << s).wrapping_add(if rng.chance(1, 2) { 1i64 << (s - 1) } else { 0 }).wrapping_add(rng.below(3) as i64 - 1)
+        }
+    };
+    one!(1, y);
+    one!(2, y);
+    one!(16, y);
+    one!(31, y);
+    one!(32, y);
+}
+
 fn fam_unwrap(rng: &mut Rng, n: usize, out: &mut Out) {
     for _ in 0..(n / 10) {
         unwrap_more(rng, out);
+    }
+    for _ in 0..(n / 50 + 1) {
+        unwrap_wraps(rng, out);
     }
     let mut y64 = 0i64;
     let mut y32 = 0i32;
